@@ -180,6 +180,11 @@ P("upd_attempts", 5);
               "upd_footer": "[%s]" % ", ".join(str(int(x, 16)) for x in mf.groups()[:4]) ,
               "upd_f45": "(%s, %s)" % (mf.group(5), mf.group(6)),
               "upd_clamp": "true" if mc else "false"})
+    # supla_esp_devconn_connect_cb: the registration state is reset together with the protocol instance
+    mconn = re.search(r"supla_esp_devconn_connect_cb\(void \*arg\) \{([^}]*)\}", re.sub(r"\s+", " ", dv))
+    if not mconn or "supla_esp_srpc_init();" not in mconn.group(1):
+        raise ExtractError("supla_esp_devconn_connect_cb: body not recognised")
+    a["dc_connect_resets"] = "true" if re.search(r"devconn->registered = 0;.*supla_esp_srpc_init\(\);", mconn.group(1)) else "false"
     a.update(u)
     a.update(h)
     a.update(b)
@@ -259,6 +264,8 @@ def emit_consts():
             k["cfg_len"], k["cfg_guid"], k["cfg_auth"]),
         "theorem cfg_offsets_ok : (%s, %s, %s) = (6, 6 + %s, 6 + %s + %s) := by decide" % (
             k["cfg_off_guid"], k["cfg_off_auth"], k["cfg_off_server"], k["cfg_guid"], k["cfg_guid"], k["cfg_auth"]),
+        "/-- supla_esp_devconn_connect_cb resets devconn->registered before creating the protocol instance -/",
+        "def dcConnectResets : Bool := %s" % k["dc_connect_resets"],
         "def updParams : UpdParams :=",
         "  { sec := %s, rsa := %s, lim512 := %s, lim1024 := %s, hi512 := %s, lo512 := %s, hi1024 := %s, lo1024 := %s," % (
             k["upd_sec"], k["upd_rsa"], k["upd_l512"], k["upd_l1024"], k["upd_a512_hi"], k["upd_a512_lo"],
